@@ -10,7 +10,7 @@
    model's comparator (Model/SubOrder.v). *)
 From Coq Require Import List ZArith Bool Arith.
 Import ListNotations.
-From Stam Require Import Base.Sx Model.Offset Model.Store Model.StoreObs Model.Compress Model.SubOrder Model.Forward Spec.StoreSpec Run.StoreRun.
+From Stam Require Import Base.Sx Model.Offset Model.Store Model.StoreObs Model.Compress Model.SubOrder Model.Forward Model.Adaptors Spec.StoreSpec Run.StoreRun.
 
 Definition csel_of_sx (x : sx) : csel :=
   let n i := sx_nat (sx_nth i x) in
@@ -89,6 +89,35 @@ Definition obs_forward (s : store) (model : bool) : sx :=
                           of_nats (if model then fw_targets_max s a else sp_targets_max s a)]
                    end) (seq 0 (length (anns s)))).
 
+(* the iterator adaptors and derived lookups (Model/Adaptors.v), in the layout of the harness *)
+Definition obs_adaptors (s : store) (model : bool) : sx :=
+  let derived (l : list nat) :=
+    let r := recs s l in
+    L [of_nats (ad_resources s model r); of_nats (ad_resources_meta s model r);
+       of_nats (sort_dedup (flat_map (fun ha => fw_datasets s (snd ha)) r))] in
+  L [L (map (fun even =>
+              let sel := live_anns s even in
+              L [of_nats (ad_annotations s model sel); of_nats (ad_targets_one s sel); of_nats (ad_targets_max s model sel);
+                 sx_pairs (ad_data sel); sx_pairs (ad_data_meta s model sel);
+                 sx_pairs (ad_keys s sel); sx_pairs (ad_keys_meta s model sel);
+                 of_nats (ad_resources s model sel); of_nats (ad_resources_meta s model sel)]) [false; true]);
+     L (map (fun d => match get_set s d with
+                      | None => dead
+                      | Some ds =>
+                          L [of_nats (ds_data_annotations s model d ds); of_nats (ds_data_annotations_meta s model d ds);
+                             of_nats (ds_data_keys ds);
+                             of_nats (ds_keys_annotations s model d ds); of_nats (ds_keys_annotations_meta s model d ds);
+                             L (map (fun x => match slot (d_data ds) x with
+                                              | None => dead
+                                              | Some _ => derived (data_anns s model d x)
+                                              end) (seq 0 (length (d_data ds))));
+                             L (map (fun k => match slot (d_keys ds) k with
+                                              | None => dead
+                                              | Some _ => derived (key_anns s model d ds k)
+                                              end) (seq 0 (length (d_keys ds))))]
+                      end) (seq 0 (length (sets s))));
+     L [of_nats (res_annotations s model); of_nats (res_annotations_meta s model)]].
+
 (* operation 14 = AnnotationStore::shrink_to_fit: performance only, the model does nothing *)
 Fixpoint run_ops (s : store) (ops : list sx) (forms : list sx) : list sx :=
   match ops with
@@ -97,7 +126,7 @@ Fixpoint run_ops (s : store) (ops : list sx) (forms : list sx) : list sx :=
       let '(s', ro) :=
         if Z.eqb (sx_Z (sx_nth 0 x)) 14 then (s, L [A 1])
         else let o := op_of_sx x in let '(s', r) := step s o in (s', sx_of_opout o r) in
-      (triple ro ro 0 :: obs_state s') ++ [triple (obs_counts s' true) (obs_counts s' false) 0; triple (obs_forward s' true) (obs_forward s' false) 0] ++ form_cases s' (hd (L []) forms) ++ run_ops s' ops' (tl forms)
+      (triple ro ro 0 :: obs_state s') ++ [triple (obs_counts s' true) (obs_counts s' false) 0; triple (obs_forward s' true) (obs_forward s' false) 0; triple (obs_adaptors s' true) (obs_adaptors s' false) 0] ++ form_cases s' (hd (L []) forms) ++ run_ops s' ops' (tl forms)
   end.
 
 Definition run_C01 (x : sx) : sx :=
